@@ -156,7 +156,7 @@ def build(quick):
             for nreq in (1, 2, 3):
                 if nreq > N + 1:
                     continue
-                inits = [(None, 1), (None, 2), (None, 128), (1, 128), (2, 128), (N, 128)]
+                inits = [(None, 1), (None, 2), (None, 128), (1, 128), (2, 128), (N, 128), (N + 1, 128)]
                 for ibs, gf in inits:
                     if ibs is not None and ibs > N + 1:
                         continue
@@ -178,7 +178,7 @@ def build(quick):
                                 # the random-order option given on the in-memory path
                                 items.append((dict(N=N, ll=list(prof), path="inmem", opts=dict(base, randomize_prior_order=True)), bound))
                             # file paths: a sub-product (each execution costs ~30 ms)
-                            if N <= (3 if quick else 4) and nlin == 1 and (not isbad or N <= 2) and mps in (None, N - 1, N):
+                            if N <= (3 if quick else 4) and nlin == 1 and (not isbad or N <= 2) and (mps in (None, N - 1, N) or (mps == N + 1 and ibs == N + 1)):
                                 for path in ("obj", "file"):
                                     if quick and path == "obj" and N == 3:
                                         continue
